@@ -61,6 +61,18 @@ func (c *QUICClient) Exchange(payload []byte, wait time.Duration) (res Result) {
 // 2-byte-prefixed frames received are the responses; anything after them is in
 // Trailing.
 func (c *QUICClient) ExchangeRaw(raw []byte, fin bool, wait time.Duration) (res Result) {
+	return c.exchange(raw, fin, 0, wait)
+}
+
+// ExchangeLateFIN is Exchange, except that the send side of the stream is
+// closed only finDelay after the query was written, so that the STREAM FIN
+// travels in a later packet than the query data (legal, and what clients that
+// write and close in two steps do).
+func (c *QUICClient) ExchangeLateFIN(payload []byte, finDelay, wait time.Duration) (res Result) {
+	return c.exchange(Frame(payload), true, finDelay, wait)
+}
+
+func (c *QUICClient) exchange(raw []byte, fin bool, finDelay, wait time.Duration) (res Result) {
 	ctx, cancel := context.WithTimeout(context.Background(), wait)
 	defer cancel()
 
@@ -89,6 +101,10 @@ func (c *QUICClient) ExchangeRaw(raw []byte, fin bool, wait time.Duration) (res 
 	}
 
 	if fin {
+		if finDelay > 0 {
+			time.Sleep(finDelay)
+		}
+
 		err = stream.Close()
 		if err != nil {
 			stream.CancelRead(0)
